@@ -11,6 +11,9 @@ except Exception:
 KNOWN = os.path.join(VERIF, 'known_findings.json')
 
 
+from .props import eq_lines
+
+
 def load_known(pid):
     try:
         with open(KNOWN) as f:
@@ -319,8 +322,12 @@ def main(argv):
                 if 'ops' not in w:
                     continue
                 st = corr.run_streams(w['ops'])
+                # a finding shared with other properties keeps ONE witness, on the core that shows it
+                # most directly; on a core this property does not own, the lines are judged literally
+                def worc(op, x, y):
+                    return prop.oracle(op, x, y) if op.split()[0] in prop.cores else eq_lines(op, x, y)
                 dev = [i for i in range(len(w['ops'])) if i >= len(st.impl) or
-                       not prop.oracle(w['ops'][i], st.impl[i], st.spec[i])]
+                       not worc(w['ops'][i], st.impl[i], st.spec[i])]
                 if e.get('status') == 'open':
                     if dev and st.impl == w.get('actual_impl', st.impl):
                         ctx.known_lines.append('KNOWN-FINDING: property=%s %s' % (prop.pid, e.get('what')))
